@@ -161,6 +161,40 @@ func (ex *Exec) known(c *Term) (val bool, ok bool) {
 	if v, ok := ex.rangeDecide(c); ok {
 		return v, true
 	}
+	switch c.op {
+	case OpBAnd:
+		all := true
+		for _, a := range c.args {
+			v, ok := ex.known(a)
+			if ok && !v {
+				return false, true
+			}
+			if !ok {
+				all = false
+			}
+		}
+		if all {
+			return true, true
+		}
+	case OpBOr:
+		none := true
+		for _, a := range c.args {
+			v, ok := ex.known(a)
+			if ok && v {
+				return true, true
+			}
+			if !ok {
+				none = false
+			}
+		}
+		if none {
+			return false, true
+		}
+	case OpBNot:
+		if v, ok := ex.known(c.args[0]); ok {
+			return !v, true
+		}
+	}
 	return false, false
 }
 
@@ -199,6 +233,15 @@ func (ex *Exec) feasible(c *Term) bool {
 		st.CacheHits++
 		st.mu.Unlock()
 		return r != Unsat
+	}
+	if ex.guessSat(pc, c) {
+		st.mu.Lock()
+		st.WitnessHits++
+		st.mu.Unlock()
+		qcacheMu.Lock()
+		qcache[k] = Sat
+		qcacheMu.Unlock()
+		return true
 	}
 	r, _ = ex.solver.Check(pc, c, false)
 	st.mu.Lock()
@@ -974,7 +1017,11 @@ func (ex *Exec) indexAddr(x Value, idx *Term) Value {
 		}
 		switch a := x.N.(type) {
 		case *BytesNode:
-			ex.require(tf.Ult(idx, a.n), "index", ex.posStr(ex.curPos), "array index out of range")
+			n := a.n
+			if x.Win > 0 {
+				n = tf.Const(64, uint64(x.Win))
+			}
+			ex.require(tf.Ult(idx, n), "index", ex.posStr(ex.curPos), "array index out of range")
 			base := tf.Const(64, 0)
 			if x.Elem {
 				base = x.Idx
@@ -993,7 +1040,7 @@ func (ex *Exec) indexAddr(x Value, idx *Term) Value {
 func (ex *Exec) windowPtr(s SliceV, at *types.Array) Value {
 	switch a := s.Arr.(type) {
 	case *BytesNode:
-		return PtrV{N: a, Elem: true, Idx: s.Off}
+		return PtrV{N: a, Elem: true, Idx: s.Off, Win: int(at.Len())}
 	case *ArrayNode:
 		off := ex.concretize(s.Off, "slice offset")
 		if off == 0 && int64(len(a.E)) == at.Len() {
@@ -1647,6 +1694,25 @@ func (ex *Exec) builtin(b *ssa.Builtin, args []Value, argTypes []types.Type) Val
 		}
 		return IntV{r}
 	case "print", "println":
+		return nil
+	case "clear":
+		switch x := args[0].(type) {
+		case SliceV:
+			switch a := x.Arr.(type) {
+			case *BytesNode:
+				ex.bytesFill(a, tf.True, x.Off, tf.Add(x.Off, x.Len), tf.Const(8, 0))
+			case *ArrayNode:
+				n := ex.concretize(x.Len, "clear length")
+				off := ex.concretize(x.Off, "clear offset")
+				for i := uint64(0); i < n; i++ {
+					ex.storeNode(a.E[off+i], ex.zero(a.ElemT))
+				}
+			}
+		case MapV:
+			if x.M != nil {
+				x.M.keys, x.M.vals = nil, nil
+			}
+		}
 		return nil
 	case "recover":
 		return IfaceV{}
